@@ -990,7 +990,7 @@ func preparePom(cs *caseSpec, dir string) (in *pomInput, discs []disc) {
 	}
 	in.fsys = scalibrfs.DirFS(in.inDir)
 	if in.man, in.rawIn, in.reqsIn, err = pomReadReqs(in.rw, in.fsys, cs.Main); err != nil {
-		bad("harness:pom-generated-document-unreadable", "%v", err)
+		bad("pom:generated-document-unreadable", "%v", err)
 		return
 	}
 	in.byName = map[string]*pdep{}
